@@ -89,10 +89,14 @@ func (m *Model) newConsumerInfo(base []*ssa.Function, expect *ssa.Function, univ
 	for _, b := range base {
 		isBase[b] = true
 	}
-	return m.newPassInfo(
+	ci := m.newPassInfo(
 		func(c ssa.CallInstruction) bool { sc := c.Common().StaticCallee(); return sc != nil && isBase[sc] },
 		func(c *ssa.Call) bool { sc := c.Call.StaticCallee(); return sc != nil && expect != nil && sc == expect },
 		universe, append(append([]*ssa.Function{}, base...), expect))
+	for _, b := range base {
+		ci.may[b] = true // the consuming primitive itself
+	}
+	return ci
 }
 
 // newPassInfo computes must-pass-through summaries for arbitrary point predicates.
